@@ -70,7 +70,8 @@ def make_targets(data, seed):
         pos = np.exp(eta) * rs.gamma(8.0, 1 / 8.0, size=len(y))
         targets[d] = {
             'LinearGAM': y, 'ExpectileGAM': y.copy(),
-            'LogisticGAM': (rs.rand(len(y)) < 1 / (1 + np.exp(-2 * np.sin(3 * X[:, 0]) - 0.5 * (X[:, 1] % 10) + 0.5))).astype(float),
+            # a weak signal: with ~30 rows a strong one is often (quasi-)separable and a cold-start fit diverges
+            'LogisticGAM': (rs.rand(len(y)) < 1 / (1 + np.exp(-0.8 * np.sin(3 * X[:, 0]) - 0.3 * (X[:, 1] % 10) + 0.3))).astype(float),
             'PoissonGAM': rs.poisson(np.exp(eta)).astype(float),
             'GammaGAM': pos, 'InvGaussGAM': pos.copy(),
         }
@@ -261,6 +262,64 @@ class Hist(object):
                                                 observed='snapshot differs', expected='bitwise unchanged'))
         return out
 
+    PERMITTED = ('OptimizationError', 'NotPositiveDefiniteError')     # ValueError subclasses: a permitted outcome of fit on valid data (C11)
+
+    def others_snapshot(self, m):
+        """predictions of every OTHER fitted model on its own fit data"""
+        out = {}
+        for j, g in enumerate(self.models):
+            if j != m and hasattr(g, 'coef_') and self.fitdata[j]:
+                try:
+                    with warnings_off():
+                        out[j] = g.predict_mu(self.data[self.fitdata[j]][0]).tobytes()
+                except Exception as ex:
+                    out[j] = 'raised ' + type(ex).__name__
+        return out
+
+    def failed_call(self, what, m, d, call, out, others_pre):
+        """fit / gridsearch / fit_quantile raised an optimisation failure.  Permitted if a fresh model of the same class, settings,
+        weights and exposure fails on that data too; the known warm-start finding if the fresh model fits; the history ends either way.
+        The failed call must not have changed the predictions of models that share no term object with this one."""
+        from pygam.terms import TermList
+        model = self.models[m]
+        fitted_before = bool(self.fitdata[m]) or hasattr(model, 'coef_')
+        ts = user_terms(model)
+        others_post = self.others_snapshot(m)
+        for j in others_pre:
+            if others_post.get(j) != others_pre[j]:
+                shared = [t for t in ts if any(t is u for u in user_terms(self.models[j]))]
+                finding = None
+                if shared:          # compile ran before PIRLS failed: shared term objects were recompiled in place
+                    finding = FINDINGS['shared' if any(type(t).__name__ == 'SplineTerm' for t in shared) else 'shared_overwrite']
+                self.res.violations.append(dict(what='a call on one model that ended in %s changed another model\'s predictions' % type(out).__name__,
+                                                finding=finding, input=dict(cls=self.cls, history=list(self.log), model=m, other=j, data=d),
+                                                observed='m%d predictions changed' % j, expected='unchanged'))
+        try:
+            fresh = new_model(self.cls, TermList(*[new_term(self.specs[self.tid(t)][0], self.specs[self.tid(t)][1], list(t.lam),
+                                                            self.specs[self.tid(t)][3]) for t in ts]), like=model)
+            X, y, w, e = self.xyw(d)
+            with contextlib.redirect_stdout(io.StringIO()), contextlib.redirect_stderr(io.StringIO()), warnings_off():
+                call(fresh, X, y, w, e)
+            fresh_out = None
+        except Exception as ex:
+            fresh_out = ex
+        if fresh_out is not None and type(fresh_out).__name__ in self.PERMITTED:
+            self.res.count('%s ended in %s, a fresh model too (permitted outcome): %s' % (what, type(out).__name__, self.cls))
+        elif fresh_out is None and fitted_before:
+            self.res.count('refit diverged:%s:fresh fits' % self.cls)
+            self.res.violations.append(dict(
+                what='%s on data%d raised %s for a model fitted before, while a fresh model with the same settings handles the same data '
+                     '(the old coef_ is the starting value)' % (what, d, type(out).__name__), finding=FINDINGS['warm_start'],
+                input=dict(cls=self.cls, history=list(self.log), model=m, data=d), observed=str(out)[:200],
+                expected='the same outcome as a fresh model'))
+        else:
+            self.res.violations.append(dict(
+                what='%s on data%d raised %s but a fresh model with the same settings %s' % (
+                    what, d, type(out).__name__, 'does not' if fresh_out is None else 'raised %s' % type(fresh_out).__name__),
+                finding=None, input=dict(cls=self.cls, history=list(self.log), model=m, data=d), observed=str(out)[:200],
+                expected='the same outcome as a fresh model'))
+        raise HistoryEnds()
+
     def step(self):
         rng = self.rng
         r = rng.random()
@@ -307,31 +366,13 @@ class Hist(object):
                 call = lambda g, X, y, w, e: g.fit(X, y, exposure=e if use_e else None, weights=w if use_w else None)
             else:
                 call = lambda g, X, y, w, e: g.fit(X, y, weights=w if use_w else None)
+            others_pre = self.others_snapshot(m)
             out = self.guarded('fit', m, d, call, query=False)
             if isinstance(out, Exception):
-                self.log.append('m%d.fit(data%d%s%s) raised %s' % (m, d, ', weights' if use_w else '', ', exposure' if use_e else '',
-                                                                  type(out).__name__))
-                if fitted and type(out).__name__ == 'OptimizationError':
-                    # does a fresh model of the same class and settings fit this data?
-                    from pygam.terms import TermList
-                    ts = user_terms(model)
-                    fresh = new_model(self.cls, TermList(*[new_term(self.specs[self.tid(t)][0], self.specs[self.tid(t)][1], list(t.lam),
-                                                                    self.specs[self.tid(t)][3]) for t in ts]), like=model)
-                    X, y, w, e = self.xyw(d)
-                    try:
-                        with warnings_off():
-                            call(fresh, X, y, w, e)
-                        fresh_ok = True
-                    except Exception:
-                        fresh_ok = False
-                    self.res.count('refit diverged:%s:fresh %s' % (self.cls, 'fits' if fresh_ok else 'diverges too'))
-                    if fresh_ok:
-                        self.res.violations.append(dict(
-                            what='fit on data%d raised OptimizationError for a model fitted before, while a fresh model with the same settings '
-                                 'fits the same data (the old coef_ is the starting value)' % d, finding=FINDINGS['warm_start'],
-                            input=dict(cls=self.cls, history=list(self.log), model=m, data=d), observed=str(out)[:200],
-                            expected='the same outcome as a fresh model'))
-                    raise HistoryEnds()
+                self.log.append('m%d.%s(data%d%s%s) raised %s' % (m, 'fit_quantile' if quant is not None else 'fit', d,
+                                                                 ', weights' if use_w else '', ', exposure' if use_e else '', type(out).__name__))
+                if type(out).__name__ in self.PERMITTED:
+                    self.failed_call('fit_quantile' if quant is not None else 'fit', m, d, call, out, others_pre)
                 raise RuntimeError('fit raised: %r' % out)
             self.fitdata[m] = d
             self.fitargs[m] = dict(w=use_w, e=use_e)
@@ -384,7 +425,10 @@ class Hist(object):
             dcall = dq
             if q.startswith('sample') and rng.random() < 0.4:      # sampling at another data set than the one the model was fitted on
                 dcall = rng.choice([x for x in range(1, NDATA + 1) if x != dq])
-            self.guarded(q, m, dcall, fn, query=True)
+            qout = self.guarded(q, m, dcall, fn, query=True)       # the purity snapshot is checked whether or not the call raised
+            if isinstance(qout, Exception):
+                self.res.count('query raised:%s.%s:%s%s' % (self.cls, q, type(qout).__name__,
+                                                           ' (permitted: a bootstrap / candidate refit failed)' if type(qout).__name__ in self.PERMITTED else ''))
             self.ops.append(fmt % m)
             self.log.append('m%d.%s(data%d)' % (m, q, dcall))
             self.res.count('query:%s.%s' % (self.cls, q))
@@ -392,10 +436,16 @@ class Hist(object):
         if r < 0.90:
             ids_before = [id(t) for t in user_terms(model)]
             coef_before = model.coef_.copy() if fitted else None
+            others_pre_g = self.others_snapshot(m)
             out = self.guarded('gridsearch(keep_best=True)', m, d,
                                lambda g, X, y, w, e: g.gridsearch(X, y, lam=np.array([0.5, 5.0]), keep_best=True, progress=False),
                                query=False)
             if isinstance(out, Exception):
+                self.log.append('m%d.gridsearch(data%d, keep_best=True) raised %s' % (m, d, type(out).__name__))
+                if type(out).__name__ in self.PERMITTED:
+                    self.failed_call('gridsearch(keep_best=True)', m, d,
+                                     lambda g, X, y, w, e: g.gridsearch(X, y, lam=np.array([0.5, 5.0]), keep_best=True, progress=False),
+                                     out, others_pre_g)
                 raise RuntimeError('gridsearch raised: %r' % out)
             new = user_terms(model)
             # the already fitted self stayed best iff its coefficients are (bitwise) the ones it had
@@ -457,7 +507,7 @@ def history_cases(res, rng, count, data, targets=None, expo=None):
             for _ in range(nsteps):
                 h.step()
         except HistoryEnds:
-            res.count('history_discarded:refit diverged')
+            res.count('history_ended_early:%s' % cls)
             continue
         except Exception as e:
             res.violations.append(dict(what='public call raised in a valid history', finding=None, input=dict(cls=cls, history=h.log),
@@ -615,11 +665,18 @@ def observe_with_weights(h):
             fresh = new_model(h.cls, TermList(*[new_term(h.specs[i][0], h.specs[i][1], list(t.lam), h.specs[i][3]) for i, t in zip(ids, ts)]),
                               like=model)
             fa = h.fitargs[m]
-            with warnings_off():
-                if h.cls == 'PoissonGAM':
-                    fresh.fit(X, y, exposure=e if fa['e'] else None, weights=w if fa['w'] else None)
-                else:
-                    fresh.fit(X, y, weights=w if fa['w'] else None)
+            try:
+                with warnings_off():
+                    if h.cls == 'PoissonGAM':
+                        fresh.fit(X, y, exposure=e if fa['e'] else None, weights=w if fa['w'] else None)
+                    else:
+                        fresh.fit(X, y, weights=w if fa['w'] else None)
+            except Exception as ex:
+                if type(ex).__name__ not in Hist.PERMITTED:
+                    raise
+                h.res.count('fresh_equal:%s:not compared (the fresh fit ended in %s)' % (h.cls, type(ex).__name__))
+                obs.append((ids, kn, d, None))
+                continue
             if not (converged(model) and converged(fresh)):
                 fe = None
                 h.res.count('fresh_equal:%s:not compared (no convergence reported)' % h.cls)
